@@ -1,2 +1,210 @@
-//! SQL reference model (relational engine + three-valued expression evaluator).
-//! Owned by the refmodel-sql work package; no TurDB code here.
+//! SQL reference model: three-valued expression evaluator (`expr`), bag-semantics
+//! SELECT evaluator (`query`) and a relational DML/DDL engine (`rel`).
+//! Boring on purpose (nested loops, whole-state copies), contains NO TurDB code and is
+//! cross-checked against SQLite by `tests/sqlite_crosscheck.rs` (bounded-exhaustive).
+//!
+//! # API in one page
+//!
+//! ```text
+//! Ty            Int | BigInt | Real | Float | Text | Blob | Bool      (.sql_name())
+//! Schema        list of SchemaCol{table: Option<String>, name, ty: Option<Ty>}
+//!               Schema::of(&[("a",Ty::Int),..])  Schema::of_table("t", &[..])  Schema::names(&["a",..])
+//!
+//! expr::Expr    Lit Col Cmp And Or Not IsNull IsNotNull In Between Like Arith Neg
+//!               | Agg InSub Exists Scalar            (these four only inside a Query)
+//!   constructors (free fns): col("a") col("t.a") qcol int float text boolean null lit(V)
+//!               eq ne lt le gt ge cmp(op,..) and or not is_null is_not_null in_list not_in_list
+//!               between not_between like not_like add sub mul div rem neg
+//!               count_star count sum avg min max in_sub not_in_sub exists not_exists scalar
+//!   e.to_sql() -> String                      fully parenthesised, TurDB + SQLite compatible
+//!   e.eval(&row, &schema) -> Result<V, EvalErr>          truth values are V::Bool / V::Null
+//!   e.eval_truth(&row, &schema) -> Result<Option<bool>, EvalErr>
+//!   e.children() / e.bool_depth() / e.columns() / e.has_agg()
+//!   value level: sql_cmp total_cmp total_cmp_rows like_match and3 or3 not3 cmp3 in3 arith_v truth
+//!   tolerances : loosely_equal loosely_equal_bool rows_loosely_equal bags_loosely_equal bags_equal_by canon
+//!   enumerators: atoms(&schema,&Consts) core_atoms(&schema,&Consts) trees(&atoms,depth) trees_count(n,depth)
+//!
+//! query::Query  {body: Body::Select(Select) | Body::SetOp{op,all,left,right}, order_by, limit, offset}
+//!   Select{distinct, items: Vec<SelectItem>, from: Option<From>, where_, group_by, having}
+//!   SelectItem::{Expr{expr,alias}, Star(Option<table>)}   From::{Table, Derived, Join{kind,left,right,on}}
+//!   builders: Query::star("t") Query::cols("t", vec![..]) Query::select(items, from) Query::from_select(s)
+//!             Query::set_op(op, all, l, r)  .distinct() .where_(p) .group_by(v) .having(p)
+//!             .order_by(vec![OrderKey::asc(e), OrderKey::ordinal(2,true)]) .limit(n) .offset(n)
+//!             From::table("t") From::table_as("t","x") From::derived(q,"d") f.join(kind, g, Some(on))
+//!   q.to_sql() -> String
+//!   q.eval(&Database) -> Result<QueryResult, EvalErr>
+//!   Database{tables: BTreeMap<String, Table{columns: Vec<(String,Ty)>, rows: Vec<Row>}>}
+//!   QueryResult{columns, rows (ONE valid answer), full, keys, desc, offset, limit}
+//!     .accepts(&observed) / .accepts_loose(&observed) / .accepts_by(&observed, eq) -> Result<(), String>
+//!     .window() -> Window::{Exact, TieAmbiguous}   .is_ordered()
+//!   free helpers: order_check(rows, &[(col,desc)])  is_valid_order(bag_with_keys, desc, observed)
+//!                 accepts_window(..)  window_kind(..)  cmp_keys  aggregate  set_op  distinct
+//!
+//! rel::State    tables + indexes + transaction stack; State::new(), .database() (view for Query::eval),
+//!               .rows("t"), .observe() (sorted bags of every table)
+//! rel::Stmt     Insert Update Delete Truncate Begin Commit Rollback Savepoint Release RollbackTo
+//!               CreateTable DropTable CreateIndex DropIndex AddColumn DropColumn RenameColumn Select
+//!   s.to_sql() -> String
+//!   s.apply(&mut State) -> Result<Outcome, ModelErr>
+//!   Outcome::{Affected{count, returning: Option<Vec<Row>>, generated: Vec<i64>}, Done, Rows(QueryResult)}
+//!   ModelErr::{ConstraintPK, ConstraintUnique, NotNull, Check, FK, NoSuchTable, NoSuchColumn, NoSuchIndex,
+//!              TableExists, ColumnExists, IndexExists, Type, Arity, Dependent, Txn, Eval(EvalErr)}
+//! ```
+//!
+//! # Examples
+//!
+//! ```
+//! use refmodel::sql::{expr::*, query::*, rel::*, Schema, Ty};
+//! use refmodel::val::V;
+//!
+//! // --- expr: a predicate, its SQL text and its three-valued value on one row
+//! let schema = Schema::of(&[("a", Ty::Int), ("c", Ty::Text)]);
+//! let p = or(gt(col("a"), int(0)), not(like(col("c"), text("a%"))));
+//! assert_eq!(p.to_sql(), "((a > 0) OR (NOT (c LIKE 'a%')))");
+//! assert_eq!(p.eval(&[V::Null, V::Text("ab".into())], &schema), Ok(V::Null));     // UNKNOWN OR FALSE
+//! assert_eq!(p.eval_truth(&[V::Int(1), V::Null], &schema), Ok(Some(true)));
+//! // all NOT/AND/OR trees of depth <= 1 over the C14 atom core, simplest first
+//! let t = Schema::of(&[("a", Ty::Int), ("b", Ty::Real), ("c", Ty::Text)]);
+//! let core = core_atoms(&t, &Consts::c14());
+//! assert_eq!(trees(&core, 1).count() as u128, trees_count(core.len() as u128, 1));
+//!
+//! // --- query: evaluate on a Database, accept any correct ordering of ties
+//! let db = Database::new().with("t", Table::new(&[("a", Ty::Int), ("c", Ty::Text)],
+//!     vec![vec![V::Int(2), V::Text("x".into())], vec![V::Null, V::Text("y".into())], vec![V::Int(2), V::Text("z".into())]]));
+//! let q = Query::cols("t", vec![col("a"), col("c")]).order_by(vec![OrderKey::asc(col("a"))]).limit(2);
+//! assert_eq!(q.to_sql(), "SELECT a, c FROM t ORDER BY a ASC LIMIT 2");
+//! let r = q.eval(&db).unwrap();
+//! assert_eq!(r.window(), Window::TieAmbiguous);                       // the two a=2 rows tie at the cut
+//! assert!(r.accepts(&[vec![V::Null, V::Text("y".into())], vec![V::Int(2), V::Text("z".into())]]).is_ok());
+//! assert!(r.accepts(&[vec![V::Int(2), V::Text("x".into())], vec![V::Null, V::Text("y".into())]]).is_err()); // NULL first
+//! let g = Query::cols("t", vec![col("a"), count_star(), sum(col("a"))]).group_by(vec![col("a")]);
+//! assert_eq!(refmodel::val::bag(&g.eval(&db).unwrap().rows),
+//!            vec![vec![V::Null, V::Int(1), V::Null], vec![V::Int(2), V::Int(2), V::Int(4)]]);
+//!
+//! // --- rel: statements are values; apply() mutates the State or fails atomically
+//! let mut st = State::new();
+//! Stmt::CreateTable(CreateTable::new(TableDef::new("t")
+//!     .col(ColumnDef::new("id", Ty::Int).primary_key())
+//!     .col(ColumnDef::new("v", Ty::Int).check(gt(col("v"), int(0)))))).apply(&mut st).unwrap();
+//! let ins = Stmt::Insert(Insert::values("t", &[], vec![vec![int(1), int(5)], vec![int(1), int(6)]]));
+//! assert_eq!(ins.to_sql(), "INSERT INTO t VALUES (1, 5), (1, 6)");
+//! assert_eq!(ins.apply(&mut st), Err(ModelErr::ConstraintPK("t".into())));
+//! assert!(st.rows("t").is_empty());                                    // statement-atomic: nothing applied
+//! let ins = Stmt::Insert(Insert::values("t", &["id", "v"], vec![vec![int(1), int(5)]]).returning_all());
+//! assert_eq!(ins.apply(&mut st), Ok(Outcome::Affected { count: 1, returning: Some(vec![vec![V::Int(1), V::Int(5)]]), generated: vec![] }));
+//! ```
+//!
+//! # Semantic decisions (every one is a documented choice; the callers' tolerances follow from them)
+//!
+//! * Truth values are `V::Bool` / `V::Null`.  TurDB reports some predicates in a select list as
+//!   integers 0/1: compare with `loosely_equal_bool`.
+//! * Comparison: NULL operand ⇒ NULL; Int↔Float exactly by value; text and blobs bytewise; FALSE < TRUE;
+//!   a NaN operand ⇒ UNKNOWN.  Operands of different type classes (text vs number …) ⇒ `EvalErr::Type`
+//!   (the enumerators never build them).
+//! * AND/OR/NOT: Kleene.  No short circuit: every operand is evaluated, so an `Err` means "some
+//!   evaluation order raises"; a subject that short-circuits may legitimately return a value.
+//! * `x IN (list)` = OR of `x = item` (so: TRUE if any equal, else NULL if x or an item is NULL, else
+//!   FALSE; an empty list / empty subquery gives FALSE even for NULL x).  NOT IN = NOT of that.
+//! * BETWEEN = `x >= lo AND x <= hi`; NOT BETWEEN its negation.
+//! * LIKE: `%` / `_` (one Unicode scalar), case SENSITIVE (as TurDB; SQLite needs
+//!   `PRAGMA case_sensitive_like=ON`), no ESCAPE; NULL operand ⇒ NULL.
+//! * Arithmetic: NULL operand ⇒ NULL; Int∘Int checked (`Overflow`); `/` on integers truncates toward zero,
+//!   `%` has the sign of the dividend (README silent; TurDB, SQLite and PostgreSQL agree); Int∘Float ⇒ Float;
+//!   zero divisor ⇒ `DivZero` for integers AND floats (callers accept NULL or an error);
+//!   `i64::MIN % -1` = 0; `-i64::MIN` and `i64::MIN / -1` ⇒ `Overflow`.
+//! * Aggregates ignore NULLs except COUNT(*); empty/all-NULL input: COUNT 0, others NULL.  SUM of integers is
+//!   Int (checked), SUM with any float is Float; AVG is always Float (use `loosely_equal`); MIN/MAX by SQL comparison.
+//! * GROUP BY / DISTINCT / UNION / INTERSECT / EXCEPT identify rows by `total_cmp` (NULL = NULL, `1` = `1.0`).
+//!   A non-aggregated expression in a grouped query must take one value per group, else `NotGrouped`.
+//!   An aggregate query without GROUP BY has exactly one group (also on empty input).
+//! * Set operations: UNION ALL m+n, INTERSECT ALL min(m,n), EXCEPT ALL max(m−n,0); without ALL each row once.
+//!   Column names come from the left operand.  ORDER BY on a set operation may only use ordinals or output names.
+//! * Joins: INNER/LEFT/RIGHT/FULL need ON (TRUE keeps the pair, NULL does not); unmatched rows are NULL-padded.
+//! * Subqueries: correlated references resolve innermost scope first; an unqualified name matching two columns
+//!   of one scope ⇒ `AmbiguousColumn`.  Scalar subquery: 0 rows ⇒ NULL, > 1 row ⇒ `ScalarSubqueryRows`.
+//! * ORDER BY: NULL first ascending, last descending (TurDB's documented placement); stable; a key is (1) an
+//!   explicit select-list alias, (2) an expression equal to a select-list expression, (3) any expression over
+//!   the source row (not with DISTINCT).  The model's `rows` are ONE valid answer; `accepts*` decides validity
+//!   of any observed list (ties in any order, tie-cutting windows, LIMIT without ORDER BY = any sub-bag).
+//! * `rel`: see the module documentation of `rel` (constraint timing, error classification order,
+//!   AUTO_INCREMENT, TRUNCATE, DDL dependencies, type coercion).
+pub mod expr;
+pub mod query;
+pub mod rel;
+
+pub use expr::{loosely_equal, loosely_equal_bool, EvalErr, Expr};
+pub use query::{Database, Query, QueryResult, Table};
+
+/// Column types of the model.  `Real` and `Float` both hold f64 values (use values exactly
+/// representable in f32 for `Real` if the subject stores 32 bits).
+#[derive(Clone, Copy, Debug, PartialEq, Eq, PartialOrd, Ord, Hash)]
+pub enum Ty {
+    /// 32-bit signed integer (`INT`)
+    Int,
+    /// 64-bit signed integer (`BIGINT`)
+    BigInt,
+    /// `REAL`
+    Real,
+    /// `FLOAT`
+    Float,
+    Text,
+    Blob,
+    /// `BOOLEAN`
+    Bool,
+}
+impl Ty {
+    pub fn sql_name(self) -> &'static str {
+        match self {
+            Ty::Int => "INT",
+            Ty::BigInt => "BIGINT",
+            Ty::Real => "REAL",
+            Ty::Float => "FLOAT",
+            Ty::Text => "TEXT",
+            Ty::Blob => "BLOB",
+            Ty::Bool => "BOOLEAN",
+        }
+    }
+}
+
+#[derive(Clone, Debug, PartialEq, Eq, PartialOrd, Ord, Hash)]
+pub struct SchemaCol {
+    /// qualifier (table name or alias) under which `table.name` finds the column
+    pub table: Option<String>,
+    pub name: String,
+    /// known for base-table columns; `None` for computed columns
+    pub ty: Option<Ty>,
+}
+
+/// Names (and types) of the columns of a row, for name resolution.
+#[derive(Clone, Debug, PartialEq, Eq, PartialOrd, Ord, Hash, Default)]
+pub struct Schema {
+    pub cols: Vec<SchemaCol>,
+}
+impl Schema {
+    /// unqualified typed columns
+    pub fn of(cols: &[(&str, Ty)]) -> Schema {
+        Schema { cols: cols.iter().map(|(n, t)| SchemaCol { table: None, name: n.to_string(), ty: Some(*t) }).collect() }
+    }
+    /// typed columns that also answer to `table.name`
+    pub fn of_table(table: &str, cols: &[(&str, Ty)]) -> Schema {
+        Schema { cols: cols.iter().map(|(n, t)| SchemaCol { table: Some(table.to_string()), name: n.to_string(), ty: Some(*t) }).collect() }
+    }
+    /// untyped, unqualified columns
+    pub fn names(names: &[&str]) -> Schema {
+        Schema { cols: names.iter().map(|n| SchemaCol { table: None, name: n.to_string(), ty: None }).collect() }
+    }
+    /// Index of the column `name` / `table.name`: `Ok(None)` if absent, `Err(())` if ambiguous.
+    /// Names are compared exactly (case sensitive).
+    pub fn resolve(&self, table: Option<&str>, name: &str) -> Result<Option<usize>, ()> {
+        let mut found = None;
+        for (i, c) in self.cols.iter().enumerate() {
+            if c.name == name && table.map_or(true, |t| c.table.as_deref() == Some(t)) {
+                if found.is_some() {
+                    return Err(());
+                }
+                found = Some(i);
+            }
+        }
+        Ok(found)
+    }
+}
